@@ -65,7 +65,7 @@ ASSUMPTIONS = [
 ]
 NSHARDS = {"quick": 16, "thorough": 16}
 TIMEOUT_S = {"quick": 240, "thorough": 1500}
-BUDGET_S = {"quick": 30, "thorough": 420}
+BUDGET_S = {"quick": 90, "thorough": 420}
 REQUIRE = {
     "hook_evaluations": 5000,
     "connections_accepted": 1000,
